@@ -226,6 +226,7 @@ def token_map(ctx, lexpr):
 
 
 def nested_outcomes(ctx, lexpr):
+    from .. import depth
     """For the tokens that open a nested construct (list, vector, byte vector, quote shorthand): with the nested
     parse answering "end of input" (Ok(None) from the recursive step) or succeeding, which error codes can each API
     raise?  The two must raise the same ones (e.g. EofWhileParsingList after a dangling quote in both)."""
@@ -250,7 +251,13 @@ def nested_outcomes(ctx, lexpr):
                 continue
             pay = [0x29 if fl["ty"] == "u8" else Opq("payload") for fl in v["fields"]]
             tv = Adt("parse::Token", v["idx"], pay, v["name"])
-            for inner in ("eof", "ok"):
+            # ... and with the depth budget nearly used up: both APIs must give out at the same level
+            for inner, budget in (("eof", None), ("ok", None), ("ok", 1), ("ok", 2)):
+                def opaque(o, budget=budget):
+                    if budget is not None and o.path and o.path[-1] == depth.FIELD:
+                        return budget
+                    return None
+
                 def hook(S, fn, bb, t, args, path, tv=tv, inner=inner, fp=fp):
                     nm = F.callee_names(t)
                     if fn.path == fp or fn.path.startswith(fp + "::{closure"):
@@ -272,7 +279,8 @@ def nested_outcomes(ctx, lexpr):
                         return ("value", sim.Tup([UNK, UNK]))
                     return None
 
-                S = sim.Sim([lexpr], hooks={"call": hook}, inline=lex.helper_inline(lexpr), max_depth=5, max_paths=6000)
+                own_closures = lambda a, b, fp=fp: lex.helper_inline(lexpr)(a, b) or (b.kind == "closure" and b.owner == fp)
+                S = sim.Sim([lexpr], hooks={"call": hook, "opaque": opaque}, inline=own_closures, max_depth=5, max_paths=6000)
                 outs = set()
                 try:
                     for p in S.run(f):
@@ -290,7 +298,8 @@ def nested_outcomes(ctx, lexpr):
                             outs.add("?")
                 except sim.Limit:
                     outs = {"inexact"}
-                m["%s, nested parse %s" % (v["name"], "succeeds" if inner == "ok" else "meets the end of input")] = outs
+                m["%s, nested parse %s%s" % (v["name"], "succeeds" if inner == "ok" else "meets the end of input",
+                                             "" if budget is None else ", %d level(s) of the depth budget left" % budget)] = outs
         maps[fp] = m
     a, b = maps[P + "next_value"], maps[P + "next_datum"]
     r.floor("cases", len(a))
